@@ -1727,4 +1727,187 @@ example : selectIDNA exConv true postmaster = some postmaster := by decide
 example : splitAddr [64, 120] = none ∧ splitAddr [120, 64] = none ∧ splitAddr [120] = none := by decide
 example : ({ cexCfg with idna := Idna.ofConv exConv (fun _ d => some d) } : Cfg).idna.addr = selectIDNA exConv := rfl
 
+
+/-! ## spelling-only rewriting and the flattening of error texts (strengthening round 9)
+
+Addresses are identifiers with an INJECTIVE naming: two identifiers are the same string iff they
+are equal.  `address.Equal` (letter case, NFC, IDN form, trailing dot) is a coarser relation `eqv`
+on them — any relation: nothing below depends on what it is.  `msgpipeline.AddRcpt` records
+`OriginalRcpts[to] = originalTo` whenever the two STRINGS differ (`recordLevel`: `input ≠ output`),
+so a modifier that only changes the spelling of a recipient is recorded like any other. -/
+
+/-- The table records every byte-wise change — also one between two spellings `eqv` identifies. -/
+theorem C18_table_records_every_bytewise_change (eqv : Addr → Addr → Prop) (m : Addr → Addr)
+    (a b : Addr) (_hspell : eqv a b) (hne : a ≠ b) : recordLevel m a b b = a := by
+  simp [recordLevel, hne]
+
+/-- …and ONLY an identical output leaves it as it is. -/
+theorem C18_table_unchanged_iff_identical (m : Addr → Addr) (a b : Addr) (hm : m b ≠ a) :
+    recordLevel m a b = m ↔ a = b := by
+  constructor
+  · intro h
+    apply Classical.byContradiction
+    intro hne
+    have := congrFun h b
+    simp [recordLevel, hne] at this
+    exact hm this.symm
+  · intro h; simp [recordLevel, h]
+
+/-- One modifier FUNCTION `f` (1-to-1 rewriting) at the global (0), per-source (1) or
+per-destination (otherwise) stage of the pipeline. -/
+def rulesOf (stage : Nat) (f : Addr → Addr) : Rules :=
+  if stage = 0 then ⟨fun a => some [f a], fun _ => none, fun _ => none⟩
+  else if stage = 1 then ⟨fun _ => none, fun a => some [f a], fun _ => none⟩
+  else ⟨fun _ => none, fun _ => none, fun a => some [f a]⟩
+
+theorem rulesOf_outputs (stage : Nat) (f : Addr → Addr) (a : Addr) :
+    (rulesOf stage f).outputs a = [f a] := by
+  unfold rulesOf
+  split
+  · simp [Rules.outputs, expand]
+  · split <;> simp [Rules.outputs, expand]
+
+theorem frontRcpts_rulesOf (stage : Nat) (f : Addr → Addr) (given : List Addr) :
+    frontRcpts (rulesOf stage f) none given = given.map f := by
+  simp only [frontRcpts]
+  induction given with
+  | nil => rfl
+  | cons a t ih => simp [List.flatMap_cons, rulesOf_outputs, ih]
+
+/-- **The reported address is the supplied one for EVERY modifier function** `f`, at whichever
+stage it runs: no hypothesis relates `f a` to `a` — `f` may map to another mailbox, to another
+spelling of the same mailbox (`eqv (f a) a`, `f a ≠ a`), or leave the address alone.  The only
+requirements are those of the queue itself: distinct effective recipients, no empty address.
+Every report lists the terminally failed recipients in order, the i-th under the conversion of the
+address the SENDER supplied (`inv` = any left inverse of `f` on the supplied addresses). -/
+theorem C18_every_modifier_function_reported_under_supplied_address
+    (cfg : Cfg) (maxTries : Nat) (now : Addr → Option Err) (failAt : Option Stage)
+    (stage : Nat) (f : Addr → Addr) (given : List Addr) (m : MsgMeta)
+    (hnd : (given.map f).Nodup) (hne : ∀ a ∈ given, a ≠ 0)
+    (inv : Addr → Addr) (hinv : ∀ a ∈ given, inv (f a) = a)
+    (rep : Report)
+    (hrep : rep ∈ reportsOf (bounces (attempt cfg maxTries now failAt
+      (viaFront (rulesOf stage f) none given m)).2)) :
+    rep.rcpts.map (fun g => some g.addr) =
+      (failedNow maxTries now (viaFront (rulesOf stage f) none given m)).map
+        (fun r => cfg.idna.addr m.utf8 (cfg.name (inv r))) := by
+  have h := C18_pipeline_fed_queue_names_senders_addresses cfg maxTries now failAt
+    (rulesOf stage f) given m (by rw [frontRcpts_rulesOf]; exact hnd) hne inv
+    (fun a ha o ho => by
+      rw [rulesOf_outputs] at ho
+      simp at ho
+      subst ho
+      exact hinv a ha)
+    rep hrep
+  exact h.1
+
+/-- The same, spelled out for the case the round is about: `f` changes ONLY the spelling of every
+supplied address (`eqv (f a) a` but `f a ≠ a`, e.g. a table handing back the lower-case form). -/
+theorem C18_respelled_recipient_reported_under_supplied_bytes
+    (cfg : Cfg) (maxTries : Nat) (now : Addr → Option Err) (failAt : Option Stage)
+    (stage : Nat) (f : Addr → Addr) (eqv : Addr → Addr → Prop) (given : List Addr) (m : MsgMeta)
+    (_hspell : ∀ a ∈ given, eqv (f a) a ∧ f a ≠ a)
+    (hnd : (given.map f).Nodup) (hne : ∀ a ∈ given, a ≠ 0)
+    (inv : Addr → Addr) (hinv : ∀ a ∈ given, inv (f a) = a)
+    (rep : Report)
+    (hrep : rep ∈ reportsOf (bounces (attempt cfg maxTries now failAt
+      (viaFront (rulesOf stage f) none given m)).2)) :
+    rep.rcpts.map (fun g => some g.addr) =
+      (failedNow maxTries now (viaFront (rulesOf stage f) none given m)).map
+        (fun r => cfg.idna.addr m.utf8 (cfg.name (inv r))) :=
+  C18_every_modifier_function_reported_under_supplied_address cfg maxTries now failAt stage f given m
+    hnd hne inv hinv rep hrep
+
+/-- What `AddRcpt` would record if it compared with `address.Equal` (`eqv`) instead of `!=`. -/
+def recordLevelEq (eqv : Addr → Addr → Bool) (m : Addr → Addr) (input output : Addr) : Addr → Addr :=
+  if !eqv input output then fun x => if x = output then input else m x else m
+
+def recordAllEq (eqv : Addr → Addr → Bool) (m : Addr → Addr) : List (Addr × Addr) → (Addr → Addr)
+  | [] => m
+  | p :: t => recordAllEq eqv (recordLevelEq eqv m p.1 p.2) t
+
+/-- Why the comparison has to be on the bytes: 2 and 3 are two spellings of one mailbox
+(`eqv`), the modifier hands back 3 for 2.  With the real table the failed recipient is reported as
+2, the bytes the sender used; with an `Equal`-based table there is no way back and the report names
+3, a string the sender never wrote. -/
+theorem C18_equal_based_table_counterexample :
+    let eqv : Addr → Addr → Bool := fun a b => a / 2 == b / 2
+    let outer : Rules := rulesOf 0 (fun a => if a = 2 then 3 else a)
+    let q := viaFront outer none [2] { cexMsg with origRcpts := fun _ => 0 }
+    let now : Addr → Option Err := fun r => if r = 3 then some (.smtp 550 ⟨5, 1, 1⟩ []) else none
+    let qe : QMeta := { q with msg := { q.msg with origRcpts := recordAllEq eqv (fun _ => 0) (frontSteps outer none [2]) } }
+    eqv 3 2 = true ∧ q.to = [3] ∧
+    (reportsOf (bounces (attempt cexCfg 1 now none q).2)).map (fun rep => rep.rcpts.map (·.addr)) = [[[2]]] ∧
+    (reportsOf (bounces (attempt cexCfg 1 now none qe).2)).map (fun rep => rep.rcpts.map (·.addr)) = [[[3]]] := by
+  decide
+
+-- non-vacuity: a spelling-only function satisfies every hypothesis
+example : let f : Addr → Addr := fun a => if a = 2 then 3 else if a = 4 then 5 else a
+    (([2, 4].map f).Nodup) ∧ (∀ a ∈ [2, 4], a ≠ 0) ∧
+    (∀ a ∈ [2, 4], (fun x y : Addr => x / 2 = y / 2) (f a) a ∧ f a ≠ a) ∧
+    (∀ a ∈ [2, 4], (fun r : Addr => r - 1) (f a) = a) := by decide
+
+/-! ### the flattening of an error text into a field value (`fieldText` of dsn.go) -/
+
+/-- **The flattening is total and its output contains neither CR nor LF** — for every string:
+bare CR, CR CR LF, LF CR, … -/
+theorem C18_flattened_text_has_no_line_break (s : Str) : 13 ∉ oneLine s ∧ 10 ∉ oneLine s := by
+  constructor <;>
+  · intro h
+    simp only [oneLine, List.mem_map] at h
+    obtain ⟨c, _, hc⟩ := h
+    by_cases hk : isCtl c
+    · simp [hk] at hc
+    · simp only [hk] at hc
+      simp at hc
+      subst hc
+      simp [isCtl] at hk
+
+/-- No control character at all survives, except the horizontal tab. -/
+theorem C18_flattened_text_has_no_control (s : Str) : ∀ c ∈ oneLine s, isCtl c = false := by
+  intro c h
+  simp only [oneLine, List.mem_map] at h
+  obtain ⟨d, _, hd⟩ := h
+  by_cases hk : isCtl d
+  · simp [hk] at hd; subst hd; decide
+  · simp only [hk] at hd
+    simp at hd
+    subst hd
+    simpa using hk
+
+/-- Nothing else changes: same length, and a text without control characters is copied. -/
+theorem oneLine_length (s : Str) : (oneLine s).length = s.length := by simp [oneLine]
+
+theorem oneLine_id_of_clean (s : Str) (h : ∀ c ∈ s, isCtl c = false) : oneLine s = s := by
+  induction s with
+  | nil => rfl
+  | cons a t ih =>
+    have ha := h a (by simp)
+    have ht := ih (fun c hc => h c (by simp [hc]))
+    simp only [oneLine, List.map_cons] at ht ⊢
+    simp [ha, ht]
+
+/-- The ASCII filter of the non-SMTPUTF8 flavour keeps that: the Diagnostic-Code text of a report,
+either flavour, has neither CR nor LF. -/
+theorem C18_diagnostic_text_is_one_line (utf8 : Bool) (s : Reply) :
+    13 ∉ shownText utf8 s ∧ 10 ∉ shownText utf8 s := by
+  have h := C18_flattened_text_has_no_line_break (msgText s.msg)
+  unfold shownText
+  cases utf8
+  · simp only [Bool.false_eq_true, if_false]
+    constructor <;>
+    · intro hm
+      simp only [mangle, List.mem_map] at hm
+      obtain ⟨c, hc, he⟩ := hm
+      by_cases hb : c ≥ 128
+      · simp [hb] at he
+      · simp only [hb] at he
+        simp at he
+        subst he
+        first | exact h.1 hc | exact h.2 hc
+  · simpa using h
+
+example : oneLine [97, 13, 98, 13, 13, 10, 99, 10, 13, 0, 9, 127, 233] =
+    [97, 32, 98, 32, 32, 32, 99, 32, 32, 32, 9, 32, 233] := by decide
+
 end MaddyVerif.C18
